@@ -626,6 +626,28 @@ def cmdBigFrames : P String := do
     return s!"DIFF C02 message-on-the-wire-corrupted-under-concurrent-large-writes bad={bad} first={first} {feats}"
   return s!"OK {feats}"
 
-def table : List (String × P String) := [("act", cmdAct), ("atoi", cmdAtoi), ("addr", cmdAddr), ("reg", cmdReg), ("client", cmdClient), ("e2e", cmdE2e), ("abort", cmdAbort), ("connr", cmdConnR), ("jsonself", cmdJsonSelf), ("upgrade", cmdUpgrade), ("bigframes", cmdBigFrames)]
+/-! ## C17 client side: `ctxsplit <scenario> <network> | <outcomes> <prompt> <goroutines-left>` -/
+
+def cmdCtxSplit : P String := do
+  let scen ← tok
+  let network ← tok
+  expect "|"
+  let outs ← tok
+  let prompt ← bool
+  let left ← nat
+  -- each operation obeys its own context (C17 LTS: the caller's steps depend on the context of that
+  -- operation only); after a cancelled receive nothing is lost for the next operations
+  let expected :=
+    if scen == "recv-cancel" || scen == "recv-deadline" || scen == "call" then "ctxerr"
+    else if scen == "send-ctx-dead" then "ok:1"
+    else if scen == "reuse" then "ctxerr,ok:1,ok:2"
+    else "?"
+  let feats := s!"nt=1 scenario={scen} net={network}"
+  if outs != expected then return s!"DIFF C17 client-operation-ignores-its-own-context expected={expected} observed={outs} {feats}"
+  if !prompt then return s!"DIFF C17 client-operation-not-unblocked-within-margin {feats}"
+  if left > 0 then return s!"DIFF C17 goroutines-left-behind count={left} {feats}"
+  return s!"OK {feats}"
+
+def table : List (String × P String) := [("act", cmdAct), ("atoi", cmdAtoi), ("addr", cmdAddr), ("reg", cmdReg), ("client", cmdClient), ("e2e", cmdE2e), ("abort", cmdAbort), ("connr", cmdConnR), ("jsonself", cmdJsonSelf), ("upgrade", cmdUpgrade), ("bigframes", cmdBigFrames), ("ctxsplit", cmdCtxSplit)]
 
 end Driver.Misc
